@@ -1,7 +1,8 @@
 (* C14 - runtime property: statements over the transition-system models (Mux/Pipe.v, Mux/Accept.v); see also the sibling files. *)
 From Coq Require Import List NArith ZArith Bool Arith.
 From SA Require Import Base.Tok Gen.Shapes Mux.Lts Mux.Pipe Mux.Accept Mux.Runtime Mux.Runtime_proofs Mux.Accept_proofs.
-From SA Require Gen.Shapes2.
+From SA Require Gen.Shapes2 Gen.CloseShape.
+From SA Require Import Queue.Close Queue.Close_proofs.
 From Coq Require Import String.
 Import ListNotations.
 Local Open Scope nat_scope.
@@ -36,3 +37,61 @@ Theorem c14_pipe_close_facts :
   Gen.Shapes2.pipe_on_down_report_closes = "up"%string /\ Gen.Shapes2.pipe_on_up_report_closes = "down"%string.
 Proof. split; reflexivity. Qed.
 Print Assumptions c14_pipe_close_facts.
+
+(* ================================================================================================================================
+   DNS tunnel connection: a reader parked in Read is reclaimed when its end closes (Queue/Close.v; `reach` = every state after any
+   sequence of operations, any path script). *)
+
+(* In every reachable state an end that is closed has no reader parked on it: whichever operation closed it (the application's Close, the
+   peer's close request, the expiry sweep, the poll goroutine reacting to BADCONN or giving up) released the reader in the same step. *)
+Theorem c14_dns_reader_released_client : forall c o, reach c -> q_parked (c_in c) <> None -> c_comm (fst (step code_shape c o)) = true ->
+  q_parked (c_in (fst (step code_shape c o))) = None.
+Proof.
+  intros c o R _ C. rewrite code_shape_intended in *. apply client_closed_released; [apply reach_step, R|exact C].
+Qed.
+Theorem c14_dns_reader_released_server : forall c o, reach c -> q_parked (s_in c) <> None -> live (s_slot (fst (step code_shape c o))) = false ->
+  q_parked (s_in (fst (step code_shape c o))) = None.
+Proof.
+  intros c o R _ L. rewrite code_shape_intended in *. apply server_closed_released; [apply reach_step, R|exact L].
+Qed.
+(* InQueue.Close hands the parked reader an outcome (it returns), and leaves none parked. *)
+Theorem c14_dns_queue_close_releases : forall q, q_parked q <> None ->
+  (exists r, snd (q_close q) = Some r) /\ q_parked (fst (q_close q)) = None /\ q_closed (fst (q_close q)) = true.
+Proof. intros q P. split; [apply q_close_releases, P|]. split; [apply q_close_parked|apply q_close_closed]. Qed.
+Example c14_dns_reader_released_example :
+  let c := fst (run code_shape (init_conn true []) [OCRead 8; OSRead 8]) in
+  q_parked (c_in c) = Some 8 /\ q_parked (s_in c) = Some 8 /\
+  snd (step code_shape c OSClose) = [ODone; OWoke false REof] /\
+  snd (run code_shape c [OSClose; OPoll None]) = [ODone; OWoke false REof; OWoke true REof].
+Proof. vm_compute. repeat split. Qed.
+
+(* closeConnection (or the sweep) without u.in.Close(): a reader parked on the server-side connection stays parked for ever, whatever
+   happens afterwards - for EVERY continuation. *)
+Theorem c14_dns_close_connection_without_queue_close_refuted : forall hs fs ops,
+  let c := fst (run close_connection_leaves_queue (init_conn hs fs) ([OSRead 4; OSClose] ++ ops)) in
+  s_closed c = true /\ q_parked (s_in c) = Some 4.
+Proof. exact close_connection_leaves_queue_parks_for_ever. Qed.
+Theorem c14_dns_sweep_without_queue_close_refuted : forall hs fs ops,
+  let c := fst (run sweep_leaves_queue (init_conn hs fs) ([OSRead 4; OExpire] ++ ops)) in
+  live (s_slot c) = false /\ q_parked (s_in c) = Some 4.
+Proof. exact sweep_leaves_queue_parks_for_ever. Qed.
+(* ClientDnsConnection.Close without dc.in.Close(): the same on the client end (as long as nothing is appended to the closed end's queue
+   behind its back, which the closed client never does: its poll goroutine has ended). *)
+Theorem c14_dns_client_close_without_queue_close_refuted : forall hs ops, Forall not_arrival ops ->
+  let c := fst (run client_close_leaves_queue (init_conn hs []) ([OCRead 4; OCClose] ++ ops)) in
+  c_comm c = true /\ q_parked (c_in c) = Some 4.
+Proof. exact client_close_leaves_queue_refuted. Qed.
+
+Theorem c14_dns_close_source_facts :
+  Gen.CloseShape.client_close_closes_in_queue = true /\ Gen.CloseShape.close_connection_closes_in_queue = true /\
+  Gen.CloseShape.sweep_closes_in_queue = true /\
+  Gen.CloseShape.in_queue_close_steps = "q.queueMutex.Lock();q.closed = true;for;q.queueNotifiers = q.queueNotifiers[0:0];q.queueMutex.Unlock()"%string.
+Proof. repeat split; reflexivity. Qed.
+
+Print Assumptions c14_dns_reader_released_client.
+Print Assumptions c14_dns_reader_released_server.
+Print Assumptions c14_dns_queue_close_releases.
+Print Assumptions c14_dns_close_connection_without_queue_close_refuted.
+Print Assumptions c14_dns_sweep_without_queue_close_refuted.
+Print Assumptions c14_dns_client_close_without_queue_close_refuted.
+Print Assumptions c14_dns_close_source_facts.
